@@ -359,6 +359,8 @@ def main():
                 continue
             if tier == "quick" and b.get("tier") == "thorough":
                 continue
+            if os.environ.get("VERIF_NO_BOUNDED"):
+                continue          # the mutation self-test exercises the contracts only (its scratch copy has no build)
             binp = replay_mod.build_binary()
             if binp is None:
                 undecided.append("%s: bounded stand-in %s: cargo build failed" % (u.unit, b["name"]))
